@@ -19,6 +19,7 @@ const (
 	VerifEvArm       = 6 // a context was handed to the timeout goroutine (A = 0 read side / 1 write side, B = 1 arm / 0 re-arm with Background)
 	VerifEvGoStart   = 7 // a library goroutine started (A = 0 timeoutLoop / 1 CloseRead)
 	VerifEvGoExit    = 8 // a library goroutine exits
+	VerifEvGaveUp    = 9 // mu.lock gave up because its context ended (Mu = which one)
 )
 
 const (
